@@ -193,10 +193,10 @@ let make_oracles cfg : oracles =
     o_authperm = (cfg "auth" "0" = "1");
     o_auth = o_auth;
     (* the trace header is the extracted model of write_received() / spfreceived(SPF_NONE) *)
-    o_trace = (fun authname helo from esmtp first relayclient ->
+    o_trace = (fun authname tlsclient helo from esmtp first relayclient ->
         trace_header
           { t_remotehost = []; t_authhide = false; t_remoteip = bytes_of_str remoteip; t_remoteport = Some (bytes_of_str "1234");
-            t_helostr = helo; t_authname = authname; t_tlsclient = None; t_remoteinfo = None;
+            t_helostr = helo; t_authname = authname; t_tlsclient = tlsclient; t_remoteinfo = None;
             t_heloname = bytes_of_str "mail.example.org"; t_version = bytes_of_str "Qsmtpd 0.39dev";
             t_esmtp = esmtp; t_cipher = None; t_chunked = false; t_first = first; t_date = bytes_of_str (String.make 31 'D') }
           from (int_of_n relayclient = 1));
@@ -205,7 +205,17 @@ let make_oracles cfg : oracles =
     o_submission = (cfg "port" "25" = str_of_bytes submission_port);
     o_subm_date = bytes_of_str (String.make 31 'D');
     o_subm_stamp = bytes_of_str "1000000000.123456";
-    o_msgidhost = bytes_of_str "msgid.example.org" }
+    o_msgidhost = bytes_of_str "msgid.example.org";
+    (* the certificate stage of is_authenticated(): no TLS in this channel - tls_verify() returns 0 at once (the TLS engine
+       overrides o_tls through orc and takes o_tlsverify from the case: cfg ccert) *)
+    o_tls = false;
+    (* what tls_verify() does behind its guard in the scratch configuration of harness/tlssession/runner.py (TLS 1.3 client):
+       no control/tlsclients or no control/clientca.pem: 0; the client did not offer post-handshake authentication:
+       SSL_verify_client_post_handshake() fails, tls_out() writes 454 and -EPROTO comes back; otherwise the request goes out
+       and tls_check_cert() looks for the certificate before the client's answer can have arrived: 0 *)
+    o_tlsverify = (if cfg "tlsclients" "0" <> "1" || cfg "clientca" "0" <> "1" then TV_no
+                   else if cfg "pha" "0" <> "1" then TV_err (true, HEPROTO)
+                   else TV_no) }
 
 (* ---- end copy ---- *)
 
@@ -216,10 +226,10 @@ let make_toracles cfg : toracles =
   let remoteip = if ip = "v4" then "::ffff:192.0.2.1" else "2001:db8::1" in
   { o_clear = oc;
     (* the extracted model of write_received() with a TLS session: "(<cipher> encrypted) ESMTPS"; the runner masks the cipher name *)
-    o_trace_tls = (fun authname helo from esmtp first relayclient ->
+    o_trace_tls = (fun authname tlsclient helo from esmtp first relayclient ->
         trace_header
           { t_remotehost = []; t_authhide = false; t_remoteip = bytes_of_str remoteip; t_remoteport = Some (bytes_of_str "1234");
-            t_helostr = helo; t_authname = authname; t_tlsclient = None; t_remoteinfo = None;
+            t_helostr = helo; t_authname = authname; t_tlsclient = tlsclient; t_remoteinfo = None;
             t_heloname = bytes_of_str "mail.example.org"; t_version = bytes_of_str "Qsmtpd 0.39dev";
             t_esmtp = esmtp; t_cipher = Some (bytes_of_str "CIPHER"); t_chunked = false; t_first = first;
             t_date = bytes_of_str (String.make 31 'D') }
@@ -414,7 +424,10 @@ let spec fs obs = match fs with
              | Tok "O" -> OOffer | Tok "F" -> OFail | Tok "S" -> OSwitch | Tok "U" -> OUnm | Tok _ -> OX) toks in
          let bad = ref [] in
          if not (spec_ok_C17 sc o.o_certfile o.o_tlsinit otoks) then bad := ["C17-observation"];
-         let simple = (try bad := !bad @ simple_check o items toks hand; true with Not_simple -> false) in
+         (* a failing tls_verify() answers one RCPT TO / MAIL FROM with two replies (454 from tls_out(), then smtploop's reply for
+            the error code): "the i-th reply belongs to the i-th segment" does not hold there *)
+         let double_reply = (match o.o_clear.o_tlsverify with TV_err (_, _) -> true | _ -> false) in
+         let simple = (try if double_reply then raise Not_simple; bad := !bad @ simple_check o items toks hand; true with Not_simple -> false) in
          if !bad = [] then (if simple then "ok+trace" else "ok") else "bad:" ^ String.concat "," !bad
        with Bad_case -> "pre")
   | _ -> "BADCASE"
